@@ -142,6 +142,8 @@ def main(argv=None):
     reasons = []
     for i, rc, tail in dead:
         reasons.append(f"shard {i} ended with {rc}")
+    if counters.get("shard_aborted", 0):
+        reasons.append(f"{counters['shard_aborted']} shard(s) aborted after repeated case timeouts")
     required = list(getattr(mod, "REQUIRED", []))
     if hasattr(mod, "required"):
         required = mod.required(args.tier)
